@@ -182,6 +182,7 @@ class World:
         self.stats = Counter()
         self.ledger = {}  # (name, vv, uid) -> cid
         self.vv_history = {}  # name -> list of vv told
+        self.vv_owner = {}  # (name, vv) -> the MBox (incarnation) that had it
         self.max_vv = 0
         self.cid_info = {}  # cid -> dict(idate=..., digest=...)
         self.steps = []  # human-readable history
@@ -359,10 +360,12 @@ class World:
         self.stats["vv_told"] += 1
         if b.vv is None:
             hist = self.vv_history.setdefault(b.name, [])
-            if hist and vv <= max(hist):
+            # created again: larger than any the name had; arrived under the name by RENAME: at least not one it had
+            if hist and ((vv in hist) if getattr(b, "arrived_by_rename", False) else vv <= max(hist)):
                 self.viol(["C02"], "uidvalidity-not-larger-after-recreate", f"{b.name}: new UIDVALIDITY {vv} but the name already had {hist} ({where})")
             b.vv = vv
             hist.append(vv)
+            self.vv_owner[(b.name, vv)] = b
         elif b.vv != vv:
             self.viol(["C02", "C12"], "uidvalidity-changed", f"{b.name}: UIDVALIDITY {vv}, model {b.vv} ({where})")
 
@@ -1099,9 +1102,16 @@ class World:
                     nk = new + k[len(old):]
                     hist = self.vv_history.setdefault(nk, [])
                     mb.name = nk
+                    mb.arrived_by_rename = True
                     self.boxes[nk] = mb
                     if mb.vv is not None:
+                        # the name had other incarnations: this one's UIDVALIDITY has to be larger than theirs
+                        # (an incarnation that comes back to a name it had before is the same one)
+                        others = [v for v in hist if self.vv_owner.get((nk, v)) is not mb]
+                        if mb.vv in others:
+                            self.viol(["C02"], "uidvalidity-not-larger-after-recreate", f"{nk}: renamed on to this name with UIDVALIDITY {mb.vv}, which another incarnation of the name already had ({others})")
                         hist.append(mb.vv)
+                        self.vv_owner[(nk, mb.vv)] = mb
                         # ledger follows the incarnation under its new name
                         for (n_, v_, u_), c_ in list(self.ledger.items()):
                             if n_ == k and v_ == mb.vv:
